@@ -1,6 +1,7 @@
 package main
 
 import (
+	mail "github.com/wneessen/go-mail"
 	"bytes"
 	"crypto/sha256"
 	"encoding/asn1"
@@ -160,6 +161,23 @@ func init() {
 				}
 				c.AddCase(Case{Line: "msg " + strings.Join(ops, " "), Post: post, Nontrivial: len(spc.Parts)+len(spc.Files) > 1,
 					Branch: spc.SMIME + ":" + spc.shape(), Desc: spc})
+				// the message is changed AFTER it has been rendered (preview first, alternative added, then sent):
+				// every later rendering must verify as well (oracle only)
+				if r.Chance(50) && len(spc.Parts) > 0 {
+					late := "<p>alternative added after the first renderings</p>\r\n"
+					m.AddAlternativeString(mail.TypeTextHTML, late)
+					ext := *spc
+					ext.Parts = append(append([]PartSpec(nil), spc.Parts...), PartSpec{CType: "text/html", Content: []byte(late)})
+					for k := 3; k <= 4; k++ {
+						res := renderOnce(m, -1)
+						if res.panic != nil || res.err != nil {
+							c.Violate("c08-render", fmt.Sprintf("render %d (after AddAlternativeString) failed: %v %v", k, res.panic, res.err), &ext)
+							break
+						}
+						c.rep.Branches["render after the message was extended"]++
+						oracleSMIME(c, &ext, res.out, nil, k)
+					}
+				}
 			}
 		}})
 }
